@@ -160,6 +160,7 @@ type (
 	validatorDelWithdrawChange struct {
 		address *common.Address
 		prev    *WithdrawRecord
+		pos     int // queue position to put prev back to on revert
 	}
 )
 
@@ -207,6 +208,11 @@ func (ch validatorAddUBDChange) dirtied() *common.Address {
 func (ch validatorDelWithdrawChange) revert(s *StateDB) {
 	if queue, err := s.getWithdrawQueue(); err == nil && queue != nil {
 		queue.Add(ch.prev)
+		// the queue is ordered and hashed into the validator root: move the record back to where it was
+		if n := queue.Len(); ch.pos >= 0 && ch.pos < n-1 {
+			copy(queue.Records[ch.pos+1:], queue.Records[ch.pos:n-1])
+			queue.Records[ch.pos] = ch.prev
+		}
 	}
 }
 
